@@ -355,6 +355,10 @@ def run_sortring(i):
         for s_ in range(rng.randint(1, 3)):
             evs, info = c16.gen_stream(rng, 300 + s_, "ok", before_start=(rng.random() < 0.5) if s_ else None)
             need = max(need, info["need"])
+            if rng.random() < 0.3:
+                # an event with an extreme clock somewhere (the stream may then be
+                # unsortable: ovnisort must say so, not die)
+                evs[rng.randrange(1, len(evs))][0] = rng.choice([0, 1, 2 ** 63 - 1, 2 ** 63, 2 ** 63 + 5, 2 ** 64 - 1])
             obs.write_stream(wd, "L", 1, 300 + s_, obs.thread_meta(300 + s_, 1, "L", cpus=[(0, 0)], extra=c16.MARK),
                              [c16.to_tuple(e) for e in evs])
         for n in sorted(set([2 * need + 4, need + 2, max(2, need), rng.choice([2, 3, 4, 8, 16, 64]), 10 ** 6])):
